@@ -33,7 +33,7 @@ TraceSrc(h) == IF h = 0 THEN <<>> ELSE Traces[h].ev[1].lines
 (* model molecule m against the molecule o observed from the real reader on the undamaged text *)
 RowAgrees(f, chg, r, o) ==
   /\ r.x = o.x /\ r.y = o.y /\ r.z = o.z
-  /\ IF f = "mol2" THEN r.lab = o.lab /\ o.q = (IF chg /\ r.hq THEN r.q ELSE 0) ELSE r.sym = o.el
+  /\ IF f = "mol2" THEN r.lab = o.lab /\ o.q = (IF chg /\ r.hq /\ UsesQ THEN r.q ELSE 0) ELSE r.sym = o.el
 Agrees(f, m, o) ==
   /\ m.na = o.na /\ m.nc = o.nc /\ m.nb = o.nb /\ Len(o.atoms) = m.na /\ Len(o.bonds) = m.nb
   /\ (f = "mol2" /\ m.name # "?") => m.name = o.name
@@ -42,7 +42,7 @@ Agrees(f, m, o) ==
 
 TGoodStart ==
   /\ phase = "idle" /\ Ev.ev = "good"
-  /\ fmt' = Ev.fmt /\ meta' = Traces[ti].tid /\ orig' = ti /\ lines' = ti /\ dmg' = NoDmg /\ ref' = <<>>
+  /\ fmt' = Ev.fmt /\ cls' = Ev.cls /\ meta' = Traces[ti].tid /\ orig' = ti /\ lines' = ti /\ dmg' = NoDmg /\ ref' = <<>>
   /\ pos' = 1 /\ pb' = <<>> /\ pc' = "main" /\ cnt' = 0 /\ tmp' = NoHdr /\ hdr' = NoHdr /\ atoms' = <<>> /\ gotA' = FALSE
   /\ bonds' = <<>> /\ gotB' = FALSE /\ ua' = 0 /\ skip' = FALSE /\ out' = <<>> /\ steps' = 0 /\ last' = [act |-> "start"]
   /\ phase' = "reading" /\ UNCHANGED <<ti, l>>
@@ -52,7 +52,7 @@ TGoodEnd ==
   /\ Len(out) = Len(Ev.mols) /\ \A i \in 1..Len(out) : Agrees(fmt, out[i], Ev.mols[i])
   /\ RetOK(out, out, Declared(fmt, TheLines)) /\ Terminates
   /\ ref' = Ev.mols /\ phase' = "idle" /\ l' = l + 1
-  /\ UNCHANGED <<fmt, meta, orig, dmg, lines, rvars, last, ti>>
+  /\ UNCHANGED <<fmt, cls, meta, orig, dmg, lines, rvars, last, ti>>
 
 (* the contract, evaluated on what the real reader did with the damaged text *)
 Holds(e, dl) == \/ e.out = "exc"
@@ -68,7 +68,7 @@ TDam ==
 Step == /\ ti <= NT /\ l <= Len(Tr)
         /\ (TGoodStart \/ TRead \/ TGoodEnd \/ TDam)
 
-ResetAll == /\ fmt' = "none" /\ meta' = "" /\ orig' = 0 /\ lines' = 0 /\ dmg' = NoDmg /\ ref' = <<>>
+ResetAll == /\ fmt' = "none" /\ cls' = "none" /\ meta' = "" /\ orig' = 0 /\ lines' = 0 /\ dmg' = NoDmg /\ ref' = <<>>
             /\ pos' = 1 /\ pb' = <<>> /\ pc' = "idle" /\ cnt' = 0 /\ tmp' = NoHdr /\ hdr' = NoHdr /\ atoms' = <<>>
             /\ gotA' = FALSE /\ bonds' = <<>> /\ gotB' = FALSE /\ ua' = 0 /\ skip' = FALSE /\ out' = <<>> /\ steps' = 0
             /\ last' = [act |-> "init"] /\ phase' = "idle"
@@ -79,7 +79,7 @@ Finish == /\ ti <= NT /\ l = Len(Tr) + 1
 Stuck  == /\ ti <= NT /\ l <= Len(Tr) /\ Ev.ev = "good" /\ ~ENABLED Step      \* only the good event can block
           /\ PrintT(<<"VERDICT", Traces[ti].tid, "STUCK", l>>)
           /\ NextTrace
-TraceInit == /\ fmt = "none" /\ meta = "" /\ orig = 0 /\ lines = 0 /\ dmg = NoDmg /\ ref = <<>>
+TraceInit == /\ fmt = "none" /\ cls = "none" /\ meta = "" /\ orig = 0 /\ lines = 0 /\ dmg = NoDmg /\ ref = <<>>
              /\ pos = 1 /\ pb = <<>> /\ pc = "idle" /\ cnt = 0 /\ tmp = NoHdr /\ hdr = NoHdr /\ atoms = <<>>
              /\ gotA = FALSE /\ bonds = <<>> /\ gotB = FALSE /\ ua = 0 /\ skip = FALSE /\ out = <<>> /\ steps = 0
              /\ last = [act |-> "init"] /\ phase = "idle" /\ ti = 1 /\ l = 1
